@@ -110,7 +110,10 @@ CLAIMED["C10"] = dict(
          "dynamic forest (recursion flattened into work lists; repaired join and shutdown block): `stopped` is triggered only by "
          "the last step of the shutdown block; when a thread is stopped every thread ever registered as its child has stopped, "
          "and transitively every descendant; a child is unregistered only after it stopped; the shutdown block blocks only while "
-         "waiting for a child that has not stopped. The pinned tree violated it (failed grandchild): fixed in /repo, replay in corpus.",
+         "waiting for a child that has not stopped. L2 (Props/TreeLive.lean): with no new API calls every schedule takes at most an "
+         "explicit rank of steps (C10_runs_terminate: a thread id is worth 2^(N-id), distinct children weigh less than their parent), "
+         "and in a run that cannot be extended a thread whose target has ended HAS triggered `stopped` unless the target of one of "
+         "its registered descendants is still running (C10_stopped_once_all_done). The pinned tree violated it (failed grandchild): fixed in /repo, replay in corpus.",
     design="§5 C10, §7", technique="Lean 4 inductive invariant (work-list coverage + guarded unregistration) + trace acceptance of real thread trees under the scheduler",
     note="Trusted: Lean kernel + standard axioms; model ThreadTree.lean tied to threads.py by trace acceptance (thread-local steps "
          "skipped lazily/eagerly); flattening of the stop()/join() recursion is exact only because neither exits early (argued, "
@@ -126,7 +129,8 @@ CLAIMED["C11"] = dict(
          "having joined all; LEAVES NOTHING BEHIND: threads are children of their creator or orphans (parent_thread=Null, registered "
          "in ALL only); the step that removes the main thread from ALL snapshots the whole registry (C11_sweep_snapshot_is_the_registry) "
          "and every thread of that snapshot, like every descendant of the main thread, has stopped and left ALL when the sweep's join is "
-         "over (C11_main_stop_leaves_nothing_registered); failures are raised only after the sweep. The pinned tree violated the property (stop racing a shutdown block that had detached its children): fixed.",
+         "over (C11_main_stop_leaves_nothing_registered); failures are raised only after the sweep; L2: "
+         "stop() returns within the rank bound under any scheduler (C11_stop_returns). The pinned tree violated the property (stop racing a shutdown block that had detached its children): fixed.",
     design="§5 C11, §7", technique="Lean 4 inductive invariants (work-list coverage of stop(), frame lemmas for every move) + trace acceptance + C11 monitor under gated-stop schedules",
     note="Same trusted base as C10. 'Registered' is the ghost list of all threads ever registered under a parent; the flattened "
          "work list of stop() is exact because the recursion never exits early.")
@@ -135,7 +139,9 @@ CLAIMED["C12"] = dict(
     text="Lean 4 theorems on the same model: the outcome is stored before `stopped` and never changes; join(u) returning a value "
          "means u stopped and the value is exactly what the target returned; a timeout is reported only if the till fired and u has "
          "not stopped, any other result means u stopped; a failed target is never reported as a return; join_all_threads waits for "
-         "every listed thread, returns results in input order and raises iff some join raised.",
+         "every listed thread, returns results in input order and raises iff some join raised; L2: runs are finite (rank) and a "
+         "join is blocked on one thing only, a thread that has not stopped while the timeout has not fired "
+         "(C12_join_blocks_only_on_unstopped).",
     design="§5 C12", technique="Lean 4 inductive invariant on join work lists + trace acceptance + value/cause-chain monitors on real runs",
     note="Same trusted base as C10. Return values are naturals standing for arbitrary values; the exception cause chain is compared "
          "on real runs by the monitor, not in the model.")
